@@ -39,11 +39,28 @@ def _is_log(s: ast.stmt) -> bool:
 
 
 class Tr:
-    def __init__(self):
+    def __init__(self, fn: ast.FunctionDef = None):
         self.vars: Dict[str, int] = {}
+        # an OPTIONAL parameter (`name: Optional[float] = None`) is translated, not specialised to its default: `.arg` / `.argNone` /
+        # `.setArg`; a caller that hands it on is `.ifCanWith`.  Whether any call site passes one: `canArgPassed` / `sendArgPassed`.
+        self.param = None
+        if fn is not None:
+            a = fn.args
+            pos = a.posonlyargs + a.args
+            opt = [x.arg for x, d in zip(pos[len(pos) - len(a.defaults):], a.defaults)]
+            opt += [x.arg for x, d in zip(a.kwonlyargs, a.kw_defaults) if d is not None]
+            if len(opt) > 1 or a.vararg or a.kwarg:
+                raise Unrecognised(f"parameters {opt + [x.arg for x in (a.vararg, a.kwarg) if x]}")
+            defaults = list(a.defaults) + [d for d in a.kw_defaults if d is not None]
+            if opt:
+                if not (isinstance(defaults[0], ast.Constant) and defaults[0].value is None):
+                    raise Unrecognised(f"parameter {opt[0]} with default {_u(defaults[0])}")
+                self.param = opt[0]
 
     def ne(self, e: ast.AST) -> str:
         s = _u(e)
+        if self.param is not None and isinstance(e, ast.Name) and e.id == self.param:
+            return ".arg"
         if s == "self.current_load" or (isinstance(e, ast.Subscript) and _u(e.value) == "self.bandwidth_load"):
             return ".load"
         if s == "self.bandwidth" or (isinstance(e, ast.Call) and _u(e.func) == "self.get_frequency_max_capacity_mbps"
@@ -75,6 +92,9 @@ class Tr:
             for v in reversed(e.values[:-1]):
                 out = f"(.{op} {self.be(v)} {out})"
             return out
+        if (isinstance(e, ast.Compare) and len(e.ops) == 1 and isinstance(e.ops[0], (ast.Is, ast.IsNot, ast.Eq, ast.NotEq))
+                and self.param is not None and _u(e.left) == self.param and _u(e.comparators[0]) == "None"):
+            return ".argNone" if isinstance(e.ops[0], (ast.Is, ast.Eq)) else "(.not .argNone)"
         if isinstance(e, ast.Compare) and len(e.ops) == 1:
             if isinstance(e.ops[0], ast.NotIn) and _u(e.comparators[0]) == "self.bandwidth_load":
                 return ".absent"
@@ -87,18 +107,28 @@ class Tr:
         raise Unrecognised(f"truth value {s}")
 
     @staticmethod
-    def _call_kind(e: ast.AST):
-        """('can' | 'deliver' | 'tx', negated) for the effectful calls, else None"""
+    def _extras(e: ast.Call) -> List[ast.AST]:
+        """what a call hands over beside the frame and the sender itself"""
+        vals = list(e.args) + [k.value for k in e.keywords]
+        return [v for v in vals if _u(v) not in ("frame", "self")]
+
+    def _call_kind(self, e: ast.AST):
+        """('can' | 'deliver' | 'tx', negated[, handed size]) for the effectful calls, else None"""
         neg = False
         while isinstance(e, ast.UnaryOp) and isinstance(e.op, ast.Not):
             neg, e = not neg, e.operand
         if isinstance(e, ast.Call) and isinstance(e.func, ast.Attribute):
             f = _u(e.func)
             if f in ("self._connected_link.can_transmit_frame", "self.airspace.can_transmit_frame"):
-                return "can", neg
+                ex = self._extras(e)
+                if len(ex) > 1:
+                    raise Unrecognised(f"call {_u(e)}")
+                return ("can", neg, self.ne(ex[0])) if ex else ("can", neg)
             if f == "receiver.receive_frame":
                 return "deliver", neg
             if f in ("self._connected_link.transmit_frame", "self.airspace.transmit"):
+                if self._extras(e):
+                    raise Unrecognised(f"call {_u(e)}")
                 return "tx", neg
         return None
 
@@ -121,6 +151,8 @@ class Tr:
             if ck is not None and ck[0] in ("can", "deliver"):
                 if ck[1]:
                     t, e = e, t
+                if len(ck) == 3:
+                    return f"(.ifCanWith {ck[2]} {t} {e})"
                 return f"(.{'ifCan' if ck[0] == 'can' else 'deliver'} {t} {e})"
             return f"(.ite {self.be(s.test)} {t} {e})"
         if isinstance(s, ast.For):
@@ -140,6 +172,8 @@ class Tr:
             is_load = _u(tgt) == "self.current_load" or (isinstance(tgt, ast.Subscript) and _u(tgt.value) == "self.bandwidth_load")
             if is_load:
                 return f"(.setLoad {val} {self.prog(rest)})"
+            if isinstance(tgt, ast.Name) and isinstance(s, ast.Assign) and tgt.id == self.param:
+                return f"(.setArg {self.ne(s.value)} {self.prog(rest)})"
             if isinstance(tgt, ast.Name) and isinstance(s, ast.Assign):
                 v = self.ne(s.value)
                 if tgt.id not in self.vars:
@@ -163,10 +197,11 @@ def translate():
     out, problems = [], []
     for name, rel, cls, meth, inline in BODIES:
         try:
-            stmts = _body(find_method(class_def(parse(rel), cls), meth))
+            fn = find_method(class_def(parse(rel), cls), meth)
+            stmts = _body(fn)
             if inline:
                 stmts = _inline_aliases(stmts)
-            term = Tr().prog(stmts)
+            term = Tr(fn).prog(stmts)
         except Exception as e:  # this body only: the others stay tied
             problems.append(f"{cls}.{meth}: {type(e).__name__}: {e}".replace('"', "'").replace("\n", " "))
             term = ".retNone"
@@ -174,8 +209,33 @@ def translate():
     return out, problems
 
 
+def arg_passing_sites():
+    """every call in src/primaite of a wired `can_transmit_frame` / of any `send_frame` that hands over more than the frame (and the
+    sender): (sites of can_transmit_frame, sites of send_frame)"""
+    from harness.lib.core import SRC
+    can, send = [], []
+    for path in sorted((SRC / "simulator").rglob("*.py")):
+        try:
+            tree = ast.parse(path.read_text())
+        except Exception:
+            continue
+        for node in ast.walk(tree):
+            if isinstance(node, ast.Call) and isinstance(node.func, ast.Attribute):
+                n = len(node.args) + len(node.keywords)
+                if node.func.attr == "can_transmit_frame" and "airspace" not in _u(node.func.value) and n > 1:
+                    can.append(f"{path.name}:{_u(node)[:80]}")
+                if node.func.attr == "send_frame" and n > 1:
+                    send.append(f"{path.name}:{_u(node)[:80]}")
+    return can, send
+
+
 def emit() -> str:
     bodies, problems = translate()
+    try:
+        can_sites, send_sites = arg_passing_sites()
+    except Exception as e:
+        problems.append(f"call sites: {type(e).__name__}: {e}".replace('"', "'"))
+        can_sites, send_sites = ["?"], ["?"]
     defs = "\n".join(f"/-- `{what}`, statement by statement -/\ndef {name} : Prog := {term}" for name, what, term in bodies)
     pl = "[" + ", ".join(f'"{p}"' for p in problems) + "]"
     return f"""import PrimaiteModel.Model.LinkBody
@@ -184,5 +244,10 @@ open Primaite.Link.Body
 {defs}
 /-- bodies the translator could not read (their term above is a stub) -/
 def bodyProblems : List String := {pl}
+/-- does any call site hand `Link.can_transmit_frame` / a `send_frame` more than the frame?  (An optional parameter that no caller
+passes is read at its default; one that a caller does pass is quantified over.) -/
+def canArgPassed : Bool := {"true" if can_sites else "false"}
+def sendArgPassed : Bool := {"true" if send_sites else "false"}
+def argPassingSites : List String := {"[" + ", ".join(f'"{x}"' for x in can_sites + send_sites).replace(chr(10), " ") + "]"}
 end Primaite.Gen.LinkBody
 """
